@@ -177,11 +177,107 @@ var (
 	fsDeleteRe = regexp.MustCompile(`^DELETE FROM (\w+)(?: WHERE (.+))?$`)
 )
 
-// fsCond is a parsed WHERE clause in disjunctive form: OR of AND-groups of (column, op, arg index).
+// fsCond is a parsed WHERE clause in disjunctive form: OR of AND-groups of (column, op, arguments).
+// The clause may nest AND / OR with parentheses (SelectOptions.Where); AND binds tighter than OR.
 type fsAtom struct {
 	col string
-	op  string // "=" | "IS" | "IN"
-	n   int    // number of arguments consumed
+	op  string // "=" | "IS" | "ISNULL" | "IN"
+	n   int    // number of arguments
+	at  int    // index of its first argument
+}
+
+type fsWhereParser struct {
+	s    string
+	i    int
+	args int
+}
+
+func (p *fsWhereParser) ws() {
+	for p.i < len(p.s) && p.s[p.i] == ' ' {
+		p.i++
+	}
+}
+
+func (p *fsWhereParser) kw(k string) bool {
+	p.ws()
+	if strings.HasPrefix(p.s[p.i:], k) && (p.i+len(k) == len(p.s) || p.s[p.i+len(k)] == ' ' || p.s[p.i+len(k)] == '(') {
+		p.i += len(k)
+		return true
+	}
+	return false
+}
+
+func (p *fsWhereParser) or() ([][]fsAtom, error) {
+	out, err := p.and()
+	if err != nil {
+		return nil, err
+	}
+	for p.kw("OR") {
+		r, err := p.and()
+		if err != nil {
+			return nil, err
+		}
+		out = append(out, r...)
+	}
+	return out, nil
+}
+
+func (p *fsWhereParser) and() ([][]fsAtom, error) {
+	out, err := p.factor()
+	if err != nil {
+		return nil, err
+	}
+	for p.kw("AND") {
+		r, err := p.factor()
+		if err != nil {
+			return nil, err
+		}
+		var prod [][]fsAtom
+		for _, a := range out {
+			for _, b := range r {
+				prod = append(prod, append(append([]fsAtom{}, a...), b...))
+			}
+		}
+		out = prod
+	}
+	return out, nil
+}
+
+var fsAtomRe = regexp.MustCompile(`^(\w+) ?(= ?\?|IS NULL|IS \?|IN \(([?, ]*)\))`)
+
+func (p *fsWhereParser) factor() ([][]fsAtom, error) {
+	p.ws()
+	if p.i < len(p.s) && p.s[p.i] == '(' {
+		p.i++
+		r, err := p.or()
+		if err != nil {
+			return nil, err
+		}
+		p.ws()
+		if p.i >= len(p.s) || p.s[p.i] != ')' {
+			return nil, fmt.Errorf("fakesql: missing ) in %q at %d", p.s, p.i)
+		}
+		p.i++
+		return r, nil
+	}
+	m := fsAtomRe.FindStringSubmatch(p.s[p.i:])
+	if m == nil {
+		return nil, fmt.Errorf("fakesql: cannot parse condition %q", p.s[p.i:])
+	}
+	p.i += len(m[0])
+	a := fsAtom{col: m[1], at: p.args}
+	switch {
+	case strings.HasPrefix(m[2], "="):
+		a.op, a.n = "=", 1
+	case m[2] == "IS NULL":
+		a.op, a.n = "ISNULL", 0
+	case m[2] == "IS ?":
+		a.op, a.n = "IS", 1
+	default:
+		a.op, a.n = "IN", strings.Count(m[3], "?")
+	}
+	p.args += a.n
+	return [][]fsAtom{{a}}, nil
 }
 
 func fsParseWhere(w string) ([][]fsAtom, error) {
@@ -189,66 +285,27 @@ func fsParseWhere(w string) ([][]fsAtom, error) {
 	if w == "" {
 		return nil, nil
 	}
-	var out [][]fsAtom
-	for _, part := range fsSplitTop(w, " OR ") {
-		part = strings.TrimSpace(part)
-		part = strings.TrimSuffix(strings.TrimPrefix(part, "("), ")")
-		var group []fsAtom
-		for _, a := range strings.Split(part, " AND ") {
-			a = strings.TrimSpace(a)
-			switch {
-			case strings.HasSuffix(a, " IS NULL"):
-				group = append(group, fsAtom{strings.TrimSuffix(a, " IS NULL"), "ISNULL", 0})
-			case strings.HasSuffix(a, " IS ?"):
-				group = append(group, fsAtom{strings.TrimSuffix(a, " IS ?"), "IS", 1})
-			case strings.HasSuffix(a, " = ?"):
-				group = append(group, fsAtom{strings.TrimSuffix(a, " = ?"), "=", 1})
-			case strings.HasSuffix(a, "=?"):
-				group = append(group, fsAtom{strings.TrimSuffix(a, "=?"), "=", 1})
-			case strings.Contains(a, " IN ("):
-				i := strings.Index(a, " IN (")
-				n := strings.Count(a[i:], "?")
-				group = append(group, fsAtom{a[:i], "IN", n})
-			default:
-				return nil, fmt.Errorf("fakesql: cannot parse condition %q", a)
-			}
-		}
-		out = append(out, group)
+	p := &fsWhereParser{s: w}
+	out, err := p.or()
+	if err != nil {
+		return nil, err
+	}
+	p.ws()
+	if p.i != len(p.s) {
+		return nil, fmt.Errorf("fakesql: trailing text in WHERE %q at %d", w, p.i)
 	}
 	return out, nil
-}
-
-// fsSplitTop splits on sep outside parentheses; "col IN (?, ?)" keeps its parentheses.
-func fsSplitTop(s, sep string) []string {
-	var out []string
-	depth, last := 0, 0
-	for i := 0; i < len(s); i++ {
-		switch s[i] {
-		case '(':
-			depth++
-		case ')':
-			depth--
-		}
-		if depth == 0 && strings.HasPrefix(s[i:], sep) {
-			out = append(out, s[last:i])
-			last = i + len(sep)
-			i += len(sep) - 1
-		}
-	}
-	return append(out, s[last:])
 }
 
 func fsMatch(cond [][]fsAtom, args []driver.Value, row map[string]driver.Value) bool {
 	if cond == nil {
 		return true
 	}
-	k := 0
 	any := false
 	for _, group := range cond {
 		ok := true
 		for _, a := range group {
-			vals := args[k : k+a.n]
-			k += a.n
+			vals := args[a.at : a.at+a.n]
 			switch a.op {
 			case "=":
 				if !fsEq(row[a.col], vals[0]) {
@@ -285,7 +342,9 @@ func fsCountArgs(cond [][]fsAtom) int {
 	n := 0
 	for _, g := range cond {
 		for _, a := range g {
-			n += a.n
+			if a.at+a.n > n {
+				n = a.at + a.n
+			}
 		}
 	}
 	return n
